@@ -1,4 +1,5 @@
 CONSTANT DevSet <- AllDevs
+CONSTANT Collect = FALSE
 INIT Init
 NEXT Next
 POSTCONDITION Accepted
